@@ -11,7 +11,7 @@ from . import cfront
 from .core import AnalysisError, VERIF
 
 CACHE = os.path.join(VERIF, ".cache")
-_ENGINE_FILES = ["cfront.py", "crange.py", "poly.py", "ckern.py"]
+_ENGINE_FILES = ["cfront.py", "crange.py", "poly.py", "ckern.py", "cnorm.py"]
 
 
 def kernel_files(repo):
@@ -66,6 +66,13 @@ def _parse_one(path):
     """worker: clang -> pruned {functions, prototypes}"""
     tu = cfront.load_tu(path)
     fns, protos = cfront.functions(tu, path)
+    from . import cnorm
+    for fn in fns.values():
+        if cnorm.contains(fn["body"], ("SwitchStmt",)):
+            try:
+                cnorm.n1_switch({"inner": [fn["body"]]})      # N1 only: the abstract interpreter has no switch
+            except cnorm.Unsupported:
+                pass                                           # left as written: crange refuses it (analysis error)
     rel = os.sep.join(path.split(os.sep)[-2:])
     out_f, out_p = {}, {}
     for n, fn in fns.items():
@@ -157,6 +164,25 @@ def topo_levels(g):
 
 
 _G = {}
+_NORM = {}
+
+
+def normalised(K, qname, repo):
+    """function `qname` after the semantics-preserving rewrites of cnorm (helpers inlined, temporaries substituted)"""
+    from . import cnorm, pyxread
+    key = id(K)
+    inl = _NORM.get(key)
+    if inl is None:
+        entries = set()
+        for cm, d in pyxread.load_all(repo).items():
+            for sh in d["shims"]:
+                if sh.kernel:
+                    entries.add(sh.kernel)
+        inl = _NORM[key] = cnorm.normalise_all(K, entries)
+    try:
+        return inl.normalised(qname)
+    except cnorm.Unsupported as e:
+        raise AnalysisError(f"{K['fns'][qname]['file']}: {qname}: normalisation refused ({e})")
 
 
 def _analyze_one(args):
